@@ -374,6 +374,29 @@ pub fn run(args: &Args) {
                 >= 2 claims that paid something and >= 1 non-zero roll-over of an expiring epoch; distinct = by hash of the model input".into();
     let mut rng = Rng::new(args.seed);
     corpus(&mut out);
+    migration_probe(&mut out);
     for _ in 0..args.n { gen_history(&mut out, &mut rng); }
     out.finish();
+}
+
+/// four funded epochs (grace 3), one partly claimed; the clock is then several days past the end of the current epoch (epoch creation
+/// lags). `migrate` on a copy of the distributor's storage one patch version back (migr.rs): the epochs it reports stay what they were.
+fn migration_probe(out: &mut Out) {
+    let (t0, d, s) = (GENESIS_DEFAULT, DAY_NS, 1_000_000_000u64);
+    let mut x = Exec::new(3, DEC_ONE);
+    let mut scratch = Out::new(&format!("{}/scratch_migr", out.dir));
+    for (t, e) in [
+        (t0, Ev::Bond { who: 0, denom: 0, amount: 1_000 }),
+        (t0, Ev::Bond { who: 1, denom: 1, amount: 3_000 }),
+        (t0, Ev::NewEpoch { sender: 1, fee: 10_000, collector_ok: true }),
+        (t0 + d, Ev::NewEpoch { sender: 2, fee: 7_777, collector_ok: true }),
+        (t0 + d + s, Ev::Claim { who: 0 }),
+        (t0 + 2 * d, Ev::NewEpoch { sender: 0, fee: 123_456, collector_ok: true }),
+        (t0 + 3 * d, Ev::NewEpoch { sender: 0, fee: 5, collector_ok: true }),
+    ] { x.exec(&mut scratch, t, &e); }
+    let dump = x.w.app.dump_wasm_raw(&x.w.distributor);
+    let b = x.w.app.block_info();
+    // at the current block, and with epoch creation several days overdue
+    crate::migr::probe_distributor(out, &dump, b.time, b.height);
+    crate::migr::probe_distributor(out, &dump, b.time.plus_nanos(5 * d + 17), b.height + 80_000);
 }
